@@ -98,6 +98,7 @@ pub fn run_pinned(p: &Prop, eng: &mut Engine) {
             Ok(Some(Err(m))) => m,
             Ok(None) => {
                 eng.note(format!("pinned input of {} could not be replayed (part {:?})", k.key, k.part));
+                eng.known_finding_line(&k.key, true, "the pinned input no longer parses; signature-excluded only");
                 continue;
             }
             Err(pm) => pm,
